@@ -121,10 +121,11 @@ theorem getArgLoop_nl_spaces (maybe : Bool) (k fuel ind : Nat) (cs : Bytes) (r :
   rw [getArgLoop_nl, getArgLoop_spaces, h]
 
 /-- double-quoted `ypr_text` output read by `get_argument` -/
-theorem text_dq_getArgument (fmt : Bool) (level flags ind : Nat) (s rest : Bytes)
+theorem text_dq_getArgument (maybe fmt : Bool) (level flags ind : Nat) (s rest : Bytes)
     (hq : flagSingleQuoted flags = false) (hs : YChars s) (hcr : 13 ∉ s) (hsn : NoSpNl s)
-    (hns : flagSingleLine flags = true → NoNlSp s) (hind : (indentOf fmt level).length ≤ ind) (hr : RestOk rest) (k : Nat) :
-    ∃ ind', getArgument false ind (printTextArg fmt level flags s ++ (spaces k ++ rest)) =
+    (hns : flagSingleLine flags = true → NoNlSp s) (hind : flagSingleLine flags = true → (indentOf fmt level).length ≤ ind)
+    (hr : RestOk rest) (k : Nat) :
+    ∃ ind', getArgument maybe ind (printTextArg fmt level flags s ++ (spaces k ++ rest)) =
       .ok { word := some s, flags := LYS_DOUBLEQUOTED, ind := ind', rest := rest } := by
   cases hsl : flagSingleLine flags with
   | true =>
@@ -132,7 +133,7 @@ theorem text_dq_getArgument (fmt : Bool) (level flags ind : Nat) (s rest : Bytes
         32 :: 34 :: (dqBody (spaces (indentOf fmt level).length) s ++ 34 :: (spaces k ++ rest)) := by
       rw [printTextArg_single _ _ _ _ (by simp [hsl, hq]), ← indentOf_eq]
       simp [hq]
-    obtain ⟨ind', h⟩ := dqBody_readQString (indentOf fmt level).length (ind + 1) s rest (by omega) hs hcr hsn
+    obtain ⟨ind', h⟩ := dqBody_readQString (indentOf fmt level).length (ind + 1) s rest (by have := hind hsl; omega) hs hcr hsn
       (fun _ => hns hsl) hr k
     refine ⟨ind', ?_⟩
     rw [harg]
@@ -155,9 +156,9 @@ theorem text_dq_getArgument (fmt : Bool) (level flags ind : Nat) (s rest : Bytes
       exact getArgLoop_quote _ _ _ _ _ _ _ h
 
 /-- single-quoted `ypr_text` output read by `get_argument` -/
-theorem text_sq_getArgument (fmt : Bool) (level flags ind : Nat) (s rest : Bytes)
+theorem text_sq_getArgument (maybe fmt : Bool) (level flags ind : Nat) (s rest : Bytes)
     (hq : flagSingleQuoted flags = true) (hs : YChars s) (hnl : 10 ∉ s) (hr : RestOk rest) (k : Nat) :
-    ∃ ind', getArgument false ind (printTextArg fmt level flags s ++ (spaces k ++ rest)) =
+    ∃ ind', getArgument maybe ind (printTextArg fmt level flags s ++ (spaces k ++ rest)) =
       .ok { word := some s, flags := LYS_SINGLEQUOTED, ind := ind', rest := rest } := by
   cases hsl : (flagSingleLine flags && !(flagSingleQuoted flags && s.contains 39)) with
   | true =>
